@@ -52,6 +52,19 @@ func main() {
 			fatal(2, "usage: vcheck replay <path>")
 		}
 		os.Exit(cmdReplay(os.Args[2]))
+	case "build":
+		// vcheck build <property> <dir>: build the harness binary into dir (debugging aid)
+		sp := findSpec(os.Args[2])
+		if sp == nil {
+			fatal(2, "unknown property")
+		}
+		os.MkdirAll(os.Args[3], 0o755)
+		bin, err := buildHarness(sp, os.Args[3], len(os.Args) > 4 && os.Args[4] == "race")
+		if err != nil {
+			fatal(2, "%v", err)
+		}
+		fmt.Println(bin)
+		return
 	case "list":
 		for _, s := range specs {
 			fmt.Println(s.ID, s.Pkg, s.Level)
